@@ -28,7 +28,7 @@ def main():
     assert sh('git -C /repo status --short')[1].strip() == '', '/repo is not clean'
     for name in sorted(os.listdir(os.path.join(VERIF, 'seeded'))):
         d = os.path.join(VERIF, 'seeded', name)
-        if not os.path.isdir(d) or (only and name not in only):
+        if not os.path.isdir(d) or (only and name not in only) or not os.path.exists(os.path.join(d, 'meta.json')):
             continue
         meta = json.load(open(os.path.join(d, 'meta.json')))
         rc, out = sh('git -C /repo apply %s' % os.path.join(d, 'patch.diff'))
